@@ -641,12 +641,14 @@ impl<'a> UserModel<'a> {
             old_data: Box::new(worksheet.clone()),
         }]);
 
-        // If we are deleting the last sheet we need to change the selected sheet
-        if sheet == sheet_count - 1 && sheet_count > 1 {
-            if let Some(view) = self.model.workbook.views.get_mut(&self.model.view_id) {
-                view.sheet = sheet_count - 2;
-            };
-        }
+        // The selection follows its sheet: sheets after the deleted one move down by
+        // one position; if the selected sheet itself is deleted the next one takes its
+        // place (the previous one when it was the last).
+        if let Some(view) = self.model.workbook.views.get_mut(&self.model.view_id) {
+            if view.sheet > sheet || (view.sheet == sheet && sheet == sheet_count - 1) {
+                view.sheet -= 1;
+            }
+        };
 
         self.model.delete_sheet(sheet)?;
         Ok(())
